@@ -36,6 +36,8 @@ type pFilterSpec struct {
 	Panic   []string             `json:"panic,omitempty"`
 	// drop only the first n messages of a key (a "are you sure?" filter that gives in later)
 	DropFirst map[string]int `json:"drop_first,omitempty"`
+	// let the first n messages of a key through and drop every later one
+	DropAfter map[string]int `json:"drop_after,omitempty"`
 }
 
 type pOpts struct {
